@@ -51,3 +51,18 @@ func H_C12_ExpISign() {
 	}
 	vsym.Reach("expi-checked")
 }
+
+// H_C10_Intervals: the interval predicates used by the proof verifiers accept exactly |z| < 2^bound, for every integer.
+func H_C10_Intervals() {
+	z := vsym.SymInt("z", 3000)
+	pow := func(bits uint) *saferith.Nat { return new(saferith.Nat).Lsh(natU(1), bits, -1) }
+	lt := func(bits uint) bool {
+		_, _, l := z.Abs().Cmp(pow(bits))
+		return l == 1
+	}
+	vsym.Assert(IsInIntervalLEps(z) == lt(768), "IsInIntervalLEps accepts exactly |z| < 2^(l+eps)")
+	vsym.Assert(IsInIntervalLPrimeEps(z) == lt(1792), "IsInIntervalLPrimeEps accepts exactly |z| < 2^(l'+eps)")
+	vsym.Assert(IsInIntervalLEpsPlus1RootN(z) == lt(1793), "IsInIntervalLEpsPlus1RootN accepts exactly |z| < 2^(1+l+eps+|N|/2)")
+	vsym.Assert(!IsInIntervalLEps(nil) && !IsInIntervalLPrimeEps(nil), "nil is rejected")
+	vsym.Reach("intervals-checked")
+}
